@@ -141,3 +141,38 @@ func inDurSeconds(e *Exec, s *State, f *Frame, fn *ssa.Function, args []Value, r
 	}
 	return e.ret(f, result, FloatV{Sym: &FloatSym{Kind: "secs", Int: d}})
 }
+
+// floatEq: equality of two float values of the supported shapes.
+// float64(x) == float64(y) iff x == y holds when both |x|,|y| < 2^53, which is
+// recorded as an assumption (all such values here are Unix seconds / counts).
+func floatEq(a, b FloatV) *Term {
+	if a.Sym == nil && b.Sym == nil {
+		return Bool(a.C == b.C)
+	}
+	lift := func(f FloatV) *FloatSym {
+		if f.Sym != nil {
+			return f.Sym
+		}
+		if f.C == math.Trunc(f.C) && math.Abs(f.C) < 1<<53 {
+			return &FloatSym{Kind: "int", Int: BV(64, uint64(int64(f.C)))}
+		}
+		return nil
+	}
+	x, y := lift(a), lift(b)
+	if x != nil && y != nil && x.Kind == y.Kind && len(x.Ops) == len(y.Ops) {
+		same := true
+		for i := range x.Ops {
+			if x.Ops[i] != y.Ops[i] {
+				same = false
+			}
+		}
+		if same && len(x.Ops) == 0 {
+			// "int": exact below 2^53; "secs": a function of the duration
+			return Eq(x.Int, y.Int)
+		}
+	}
+	if x != nil && y != nil && x.Kind != y.Kind {
+		// secs(d) vs an integer constant etc.: not comparable in the model
+	}
+	panic(unsupported("equality of symbolic floats of different shapes"))
+}
